@@ -169,4 +169,22 @@ def floorDiv (a b : Int) : Except Exc Int :=
 def floorMod (a b : Int) : Except Exc Int :=
   if b = 0 then .error .zeroDivisionError else .ok (Int.fmod a b)
 
+/-! ## w5-smallsrc: primitives of the small self-contained functions -/
+
+/-- `bin(i)`: `'0b'` and the binary digits, a leading `'-'` for a negative int -/
+def bin (i : Int) : Str :=
+  if i < 0 then '-' :: '0' :: 'b' :: Nat.toDigits 2 i.natAbs else '0' :: 'b' :: Nat.toDigits 2 i.toNat
+
+/-- a slice bound as CPython's `PySlice_AdjustIndices` clamps it (step 1): a negative bound counts from the
+    end, then the bound is clamped to `0 .. len` -/
+def sliceBound (len : Nat) (i : Int) : Nat :=
+  if i < 0 then (i + (len : Int)).toNat else min i.toNat len
+
+/-- `xs[lo:hi]` (no step; `none` = the bound is omitted): the items from `lo` up to but not including `hi`,
+    empty when `hi ≤ lo`; never raises -/
+def slice {α : Type} (xs : List α) (lo hi : Option Int) : List α :=
+  let a := match lo with | none => 0 | some i => sliceBound xs.length i
+  let b := match hi with | none => xs.length | some i => sliceBound xs.length i
+  (xs.drop a).take (b - a)
+
 end Py
